@@ -240,8 +240,9 @@ def c20_r2(ctx):
     fa = guards.Facts(ck)
     CK = pm.Alpha(ck)
     cks = pm.stmts_of(ck.node)
-    roles = CK.has(cks, "lo = 0") and CK.has(cks, "hi = self.indexlen") and CK.has(cks, "mid = (lo + hi) // 2") and \
-        any(isinstance(st, ast.While) and CK.eq(st.test, "lo < hi") for st in cks)
+    # bind lo/hi from the loop test first (`x = self.indexlen` alone could as well be a cached copy of the length)
+    roles = CK.has(cks, "lo = 0") and any(isinstance(st, ast.While) and CK.eq(st.test, "lo < hi") for st in cks) and \
+        CK.has(cks, "hi = self.indexlen", al=True) and CK.has(cks, "mid = (lo + hi) // 2")
     midkeys = [st for st in cks if isinstance(st, ast.Assign) and isinstance(st.targets[0], ast.Name) and
                any(isinstance(x, ast.Name) and x.id == CK.name("mid") for x in ast.walk(st.value)) and st.targets[0].id != CK.name("mid")]
     if len(midkeys) == 1:
